@@ -125,6 +125,7 @@ class Fn:
     pattern_lines: Optional[List[str]] = None  # source lines computing ``pattern``
     body: Optional[str] = None  # for transpilable: expression returned
     doc: Optional[str] = None
+    examples: List[str] = field(default_factory=list)  # strings known to match (pattern functions)
 
 
 @dataclass
@@ -201,6 +202,38 @@ class Spec:
 
     def to_json(self) -> Any:
         return dataclasses.asdict(self)
+
+    @staticmethod
+    def from_json(d: Any) -> "Spec":
+        def tref(x: Any) -> Optional[TRef]:
+            if x is None:
+                return None
+            return TRef(x["kind"], x.get("name", ""), tref(x.get("item")))
+
+        def inv(x: Any) -> Inv:
+            return Inv(x["body"], x["desc"], dict(x.get("tags") or {}))
+
+        spec = Spec()
+        spec.enums = [Enm(e["name"], [tuple(l) for l in e["literals"]], e.get("doc")) for e in d.get("enums", [])]
+        spec.cps = [CP(c["name"], c["prim"], list(c["bases"]), [inv(i) for i in c.get("invs", [])], c.get("doc"))
+                    for c in d.get("cps", [])]
+        spec.classes = [
+            Cls(c["name"], list(c["bases"]), bool(c["abstract"]),
+                [Prop(p["name"], tref(p["type"]), p.get("doc")) for p in c["props"]],  # type: ignore
+                [inv(i) for i in c.get("invs", [])], bool(c.get("with_model_type")), c.get("doc"),
+                bool(c.get("dbc", True)), bool(c.get("kw_super", False)))
+            for c in d.get("classes", [])
+        ]
+        spec.consts = [Const(c["name"], c["kind"], c.get("value"), c.get("enum"), list(c.get("superset_of") or []),
+                             c.get("doc"), bool(c.get("positional"))) for c in d.get("consts", [])]
+        spec.fns = [Fn(f["name"], f["kind"], [(a[0], tref(a[1])) for a in f["args"]], f.get("pattern"),  # type: ignore
+                       f.get("pattern_lines"), f.get("body"), f.get("doc"), list(f.get("examples") or []))
+                    for f in d.get("fns", [])]
+        spec.order = [tuple(o) for o in d.get("order", [])]  # type: ignore
+        spec.module_doc = d.get("module_doc")
+        spec.version = d.get("version", "V1.0")
+        spec.xml_namespace = d.get("xml_namespace", "https://example.com/ns/1")
+        return spec
 
 
 # ---------------------------------------------------------------------------
@@ -448,12 +481,23 @@ class Opts:
     patterns: Optional[Any] = None  # strategy for anchored patterns (else a small built-in pool)
 
 
-PATTERN_POOL = [
-    "^[a-z]+$", "^[A-Z][a-z0-9_]*$", "^(0|[1-9][0-9]*)$", "^[0-9]{2,4}$", "^a?b*c+$",
-    "^(ab|cd)*$", "^[^x]{1,3}$", "^x.y$", "^[a-f0-9]{2}(-[a-f0-9]{2})*$", "^\\.[a-z]{1,3}$",
-    "^[\\x20-\\x7e]*$", "^(\\+|-)?[0-9]+$", "^[a-zA-Z_][a-zA-Z0-9_]{0,5}$",
-    "^[\\U00010000-\\U0010FFFF]?[a-c]$",
-]
+PATTERN_EXAMPLES = {
+    "^[a-z]+$": ["a", "ab", "abc", "zzzz", "abcdef"],
+    "^[A-Z][a-z0-9_]*$": ["A", "Ab", "Z9_", "Abcde", "Foo"],
+    "^(0|[1-9][0-9]*)$": ["0", "1", "10", "999", "12345"],
+    "^[0-9]{2,4}$": ["00", "123", "9999"],
+    "^a?b*c+$": ["c", "ac", "abc", "bbcc", "abbbccc"],
+    "^(ab|cd)*$": ["", "ab", "cd", "abcd", "cdabab"],
+    "^[^x]{1,3}$": ["a", "ab", "abc", "   ", "\u00e9"],
+    "^x.y$": ["xay", "x-y", "x y"],
+    "^[a-f0-9]{2}(-[a-f0-9]{2})*$": ["00", "af-09", "aa-bb-cc"],
+    "^\\.[a-z]{1,3}$": [".a", ".ab", ".abc"],
+    "^[\\x20-\\x7e]*$": ["", " ", "a~", "Foo bar", "x-1"],
+    "^(\\+|-)?[0-9]+$": ["0", "+1", "-12", "123"],
+    "^[a-zA-Z_][a-zA-Z0-9_]{0,5}$": ["a", "_", "ab_1", "Foo", "abcdef"],
+    "^[\\U00010000-\\U0010FFFF]?[a-c]$": ["a", "\U0001F600b", "c"],
+}
+PATTERN_POOL = list(PATTERN_EXAMPLES)
 
 DESC_WORDS = ["value", "must", "be", "the", "a", "an", "shall", "not", "empty", "item",
               "of", "list", "with", "at", "least", "one", "element", "Constraint", "AASd-1:",
@@ -562,7 +606,8 @@ def specs(draw: Any, opts: Opts = Opts()) -> Spec:
                 inner = pat[1:-1]
                 plines = [f"inner = {pystr_regex(inner)}", 'pattern = f"^{inner}$"']
             spec.fns.append(Fn(nm, "pattern", [("text", TRef("prim", "str"))], pattern=pat,
-                               pattern_lines=plines, doc=_plain_doc(draw, opts)))
+                               pattern_lines=plines, doc=_plain_doc(draw, opts),
+                               examples=list(PATTERN_EXAMPLES.get(pat, []))))
 
     # ---- constrained primitives (DAG per primitive) ----
     n_cps = draw(st.integers(0, opts.max_cps))
